@@ -99,11 +99,10 @@ EXPORT errno_t _strcasestr_s_chk(char *dest, rsize_t dmax, const char *src,
         CHK_DEST_OVR("strcasestr_s", destbos)
     }
 
-    if (unlikely(slen > dmax)) {
-        errno_t rc = slen > RSIZE_MAX_STR ? ESLEMAX : ESNOTFND;
-        invoke_safe_str_constraint_handler("strcasestr_s: slen exceeds dmax",
-                                           (void *)dest, rc);
-        return RCNEGATE(rc);
+    if (unlikely(slen > RSIZE_MAX_STR)) {
+        invoke_safe_str_constraint_handler("strcasestr_s: slen exceeds max",
+                                           (void *)dest, ESLEMAX);
+        return RCNEGATE(ESLEMAX);
     }
     if (srcbos == BOS_UNKNOWN) {
         BND_CHK_PTR_BOUNDS(src, slen);
@@ -127,6 +126,12 @@ EXPORT errno_t _strcasestr_s_chk(char *dest, rsize_t dmax, const char *src,
     if (unlikely(*src == '\0' || dest == src)) {
         *substring = dest;
         return (EOK);
+    }
+    /* as in strstr_s: a longer src cannot be found, which is no violation */
+    if (unlikely(slen > dmax)) {
+        len = strnlen_s(src, slen);
+        if (len > dmax || len > strnlen_s(dest, dmax))
+            return RCNEGATE(ESNOTFND);
     }
 
     while (dmax && *dest) {
